@@ -136,6 +136,10 @@ func c02Judge(c *core.Ctx, in []byte, section string, distinctByInput bool) {
 	c.Eval(1)
 	rm, why := ref.Parse(in)
 	m := new(stun.Message)
+	if gen.HashBytes(in)%3 == 0 {
+		// a destination that already reported another message's attribute list
+		_ = stun.Decode(c02Previous, m)
+	}
 	var err error
 	if p, stack := safely(func() { err = stun.Decode(in, m) }); p != nil {
 		reportPanic(c, "Decode", p, stack, map[string]interface{}{"input_hex": core.Hex(in)})
@@ -177,6 +181,9 @@ func c02Judge(c *core.Ctx, in []byte, section string, distinctByInput bool) {
 }
 
 var errCallback = errors.New("callback error")
+
+var c02Previous = stun.MustBuild(stun.BindingSuccess, stun.NewTransactionIDSetter([12]byte{9, 9, 9}), //nolint:gochecknoglobals
+	stun.NewSoftware("previous"), stun.NewUsername("previous-user"), stun.RawAttribute{Type: 0x8020, Value: []byte{1, 2, 3, 4, 5, 6, 7, 8}}).Raw
 
 // c02Lookups checks Get / Contains / ForEach against list semantics.
 func c02Lookups(c *core.Ctx, m *stun.Message, rm *ref.Msg, in []byte) {
